@@ -19,7 +19,7 @@ variable {n : Nat} {s : St}
 theorem c08_publish_idx_exact (hn : 0 < n) (hr : ReachableX n s) (t id idx g : Nat) (ht : s.thr t = .rPub id idx g) :
     (s.tail = g → g = id ∧ idx = id % s.N ∧ (step s t).accepted = s.accepted ++ [s.buf (id % s.N)] ∧
         (step s t).accepted[id]? = some (s.buf (id % s.N)) ∧ (step s t).tail = id + 1 ∧
-        (step s t).thr t = .done (.pubIdx (some (max 1 (id - s.head))))) ∧
+        (step s t).thr t = .rLen id) ∧
     (s.tail ≠ id → (step s t).accepted = s.accepted ∧ (step s t).tail = s.tail ∧ holdsP ((step s t).thr t) id) := by
   have hi := reachable_inv hn hr
   constructor
@@ -32,6 +32,25 @@ theorem c08_publish_idx_exact (hn : 0 < n) (hr : ReachableX n s) (t id idx g : N
     have hg : s.tail ≠ g := fun he => hne (he.trans (rPub_exact s hi t id idx g ht he).1)
     simp only [step, ht, hg, if_false]
     split <;> simp [holdsP]
+
+/-- the length a successful publish-by-index answers: `u32::max(1, previous_tail - head)` with `head` loaded AFTER the publication and no
+    signed clamp.  If no consumer moved `head` past the published sequence number in between (`head ≤ g`, within the `u32` window) the answer is
+    the number of unreleased elements in front of it, at least 1; otherwise the `u32` difference wraps (the example below: 4294967295) — harmless
+    where the crate uses it (the wake rule then wakes nobody, and the element is already with a consumer), recorded in DESIGN.md 11.9 -/
+theorem c08_publish_idx_len (s : St) (t g : Nat) (ht : s.thr t = .rLen g) :
+    (step s t).thr t = .done (.pubIdx (some (max 1 (U32.wsub (U32.wrap g) (U32.wrap s.head))))) ∧
+    (s.head ≤ g → g - s.head < 4294967296 → (step s t).thr t = .done (.pubIdx (some (max 1 (g - s.head))))) := by
+  refine ⟨by simp [step, ht], ?_⟩
+  intro h1 h2
+  have : U32.wsub (U32.wrap g) (U32.wrap s.head) = g - s.head := by
+    simp only [U32.wsub, U32.wrap]; omega
+  simp [step, ht, this]
+
+set_option maxRecDepth 16384 in
+/-- the wrap is real: a consumer takes the just-published element between the publication CAS and the `head` load -/
+example : let s := run (init 2) [.reserve 0, .step 0, .step 0, .ack 0, .fill 0 9, .pubIdx 0, .step 0,
+                                  .recv 1, .step 1, .step 1, .step 1, .step 1, .step 0]
+    s.thr 0 = .done (.pubIdx (some 4294967295)) ∧ s.thr 1 = .done (.got 9) := by decide +kernel
 
 /-- cancel-by-index is exact when every other producer-side holder is admitted: the CAS succeeds only on the caller's own
     sequence number; it then gives exactly that number back and changes nothing else -/
